@@ -592,7 +592,7 @@ class Executor:
                 frame[s] = self.world.new(store, None)
             return frame[s]
         if s.startswith("(*") and s.endswith(")"):
-            inner = store[self.place(body, s[2:-1], frame, store)]
+            inner = store[self.place(body, s[2:-1], frame, store, create)]
             if not isinstance(inner, Ref):
                 raise Unsupported("deref of non-reference in %s: %r" % (s, inner))
             return inner.cell
@@ -639,7 +639,7 @@ class Executor:
                         pl[vi] = cells
                         store[bcell] = Enum(e.adt, e.disc, pl)
                     return cells[idx]
-                bcell = self.place(body, base_s, frame, store)
+                bcell = self.place(body, base_s, frame, store, create)
                 v = store[bcell]
                 if v is None and create:
                     v = Tup([])
@@ -766,7 +766,7 @@ class Executor:
             if isinstance(r, tuple):
                 return Tup([self.world.new(store, r[1]), self.world.new(store, r[2])])
             return r
-        m = re.match(r"^(.+) as (\w+) \((\w+)\)$", s)
+        m = re.match(r"^((?:copy|move) .+?) as (.+) \((\w+)\)$", s)
         if m:
             v = self.operand(body, m.group(1), frame, store)
             ty, kind = m.group(2), m.group(3)
@@ -775,6 +775,8 @@ class Executor:
                 v = self.as_bv(v)
                 t = v.t if w == v.width else (z3.Extract(w - 1, 0, v.t) if w < v.width else (z3.SignExt(w - v.width, v.t) if v.signed else z3.ZeroExt(w - v.width, v.t)))
                 return BV(t, w, sg)
+            if isinstance(v, Ref):
+                return v  # pointer-to-pointer casts and transmutes between pointer types keep the referent
             return Opaque("cast " + kind)
         m = re.match(r"^\{closure@([^}]+)\}(?: \{(.*)\})?$", s)
         if m:
@@ -789,6 +791,10 @@ class Executor:
             cells = []
             for part in _split_top(m.group(2).strip()):
                 cells.append(self.world.new(store, self.operand(body, part.split(": ", 1)[1], frame, store)))
+            em = re.match(r"^(?:[\w:]+::)?(\w+)(?:::<.*?>)?::(\w+) \{", s)
+            if em and em.group(1) in self.enums and em.group(2) in self.enums[em.group(1)]:
+                vi = self.enums[em.group(1)].index(em.group(2))  # struct-like enum variant: fields in declaration order
+                return Enum(em.group(1), vi, {vi: cells})
             return Tup(cells, m.group(1))
         if s.startswith("(") and s.endswith(")") and not re.match(r"^\(.*\) as ", s):
             parts = _split_top(s[1:-1])
@@ -1204,6 +1210,36 @@ def m_get(ex, callee, args, pc, store, depth):
     v, _ = vec_of(ex, store, args[0])
     for kind, x, pcx, stx in index_paths(ex, v, args[1], pc, store, "get"):
         yield ("value", some(ex, stx, Ref(x)), pcx, stx) if kind == "cell" else ("value", NONE, pcx, stx)
+
+
+@MODELS.add(r"^(std::boxed::)?Box::<.*>::new_uninit$")
+def m_box_new_uninit(ex, callee, args, pc, store, depth):
+    """`vec![a, b]` lowers to Box::new_uninit + a write through the raw pointer + box_assume_init_into_vec_unsafe."""
+    payload = ex.world.new(store, None)
+    nonnull = ex.world.new(store, Ref(payload))
+    unique = ex.world.new(store, Tup([nonnull], "Unique"))
+    yield ("value", Tup([unique], "Box"), pc, store)
+
+
+@MODELS.add(r"box_assume_init_into_vec_unsafe::<")
+def m_box_into_vec(ex, callee, args, pc, store, depth):
+    v = store[store[args[0].cells[0]].cells[0]]  # Box.0 (Unique) .0 (NonNull) = Ref(payload)
+    payload = store[v.cell]
+    # MaybeUninit { uninit: (), value: ManuallyDrop { value: MaybeDangling { value: [T; N] } } }: the array is the innermost field
+    while isinstance(payload, Tup):
+        inner = [store[c] for c in payload.cells if store[c] is not None]
+        if not inner:
+            raise Unsupported("uninitialised box payload")
+        payload = inner[-1]
+    if not isinstance(payload, VecV):
+        raise Unsupported("box payload is %r" % (payload,))
+    yield ("value", VecV(payload.cells), pc, store)
+
+
+@MODELS.add(r"^<(std::vec::)?Vec<.*> as Clone>::clone$")
+def m_vec_clone(ex, callee, args, pc, store, depth):
+    v, _ = vec_of(ex, store, args[0])
+    yield ("value", ex.world.copy_value(store, v), pc, store)
 
 
 # ---- Option / Result combinators
